@@ -6,6 +6,8 @@ import WM.Lemmas.Suggest
 import WM.Lemmas.DFA
 import WM.Lemmas.DFAFuel
 import WM.Lemmas.LevSucc
+import WM.Lemmas.ListCorrector
+import WM.Lemmas.FuzzyIndex
 /-!
 C19 - fuzzy matching and spelling suggestions are exact with respect to edit distance.
 
@@ -327,6 +329,50 @@ example : fuzzyDocsSeg [[97, 98], [98], [98, 97]] [[[97, 98]], [[98, 97], [98]],
   · simp [sharePrefix, lev, ed, neq, List.zipIdx]
   · intro t; simp; constructor <;> (rintro (h | h | h) <;> simp [h])
 
+/-- A segment: its sorted term list (of real characters) is the set of terms of its documents. -/
+def SegOK (s : List (List Nat) × List (List (List Nat))) : Prop :=
+  (∀ t, t ∈ s.1 → Valid t) ∧ SortedLex s.1 ∧ ∀ t, t ∈ s.1 ↔ ∃ doc, doc ∈ s.2 ∧ t ∈ doc
+
+/-- **Fuzzy term query on a multi-segment index** (what `Searcher.search(FuzzyTerm)` observes):
+    the union over the segments - the hits are exactly the documents, in global numbering, that
+    contain a non-empty term sharing the prefix and within plain Levenshtein distance.  Same
+    deviation from the documented `osa` as `fuzzy_query` (the expansion is done per segment with
+    the automaton, also on multi-segment indexes). -/
+theorem fuzzy_query_index (w : List Nat) (d p : Nat) (hw : Valid w) :
+    ∀ (segs : List (List (List Nat) × List (List (List Nat)))) (off : Nat), (∀ s, s ∈ segs → SegOK s) →
+      fuzzyDocsIndex w d p segs off =
+        .ok ((((segs.flatMap (·.2)).zipIdx off).filter fun x => x.1.any fun t =>
+          !t.isEmpty && (sharePrefix p t w && decide (lev t w ≤ d))).map (·.2)) := by
+  intro segs
+  induction segs with
+  | nil => intro off _; rfl
+  | cons s rest ih =>
+    intro off hok
+    obtain ⟨lex, docs⟩ := s
+    obtain ⟨hv, hs, hlex⟩ := hok (lex, docs) (by simp)
+    rw [fuzzyDocsIndex, fuzzy_query lex docs w d p hw hv hs hlex]
+    simp only
+    rw [ih (off + docs.length) (fun s hs => hok s (List.mem_cons_of_mem _ hs))]
+    simp only [Except.map, List.flatMap_cons, List.zipIdx_append, List.filter_append, List.map_append,
+      List.map_map]
+    congr 2
+    exact filter_zipIdx_shift docs off (fun doc => doc.any fun t =>
+      !t.isEmpty && (sharePrefix p t w && decide (lev t w ≤ d)))
+
+/-- Two segments: the document `[ab]` of the second segment is hit as number 2; `[ba]` (one
+    transposition away) is not. -/
+example : fuzzyDocsIndex [97, 98] 1 0
+    [([[98], [98, 97]], [[[98, 97]], [[98]]]), ([[97, 98]], [[[97, 98]]])] 0 = .ok [1, 2] := by
+  rw [fuzzy_query_index _ _ _ (by simp [Valid, maxCodePoint])]
+  · simp [sharePrefix, lev, ed, neq, List.zipIdx]
+  · intro s hs
+    simp only [List.mem_cons, List.not_mem_nil, or_false] at hs
+    rcases hs with rfl | rfl
+    · refine ⟨by simp [Valid, maxCodePoint], by simp [SortedLex], ?_⟩
+      intro t; simp; constructor <;> (rintro (h | h) <;> simp [h])
+    · refine ⟨by simp [Valid, maxCodePoint], by simp [SortedLex], ?_⟩
+      intro t; simp
+
 /-! ### `spelling.py`: suggestions -/
 
 /-- Full statement for suggestions (multi-segment path): existing terms within the documented
@@ -382,7 +428,7 @@ theorem suggest_returns_word :
   rw [terms_within_multi]
   have : within osa [[97]] [97] 1 0 = [[97]] := by simp [within, sharePrefix, osa, ed, neq]
   rw [this]
-  simp [bind, Except.bind, suggest, suggestions, suggestLoop, heapInsert, Except.map, sortBy, insertBy]
+  simp [bind, Except.bind, suggest, suggestItems, suggestions, suggestLoop, heapInsert, Except.map, sortBy, insertBy]
 
 /-- Hence the full statement about suggestions is false of the code. -/
 theorem not_suggest_full : ¬ suggest_full := by
@@ -390,7 +436,7 @@ theorem not_suggest_full : ¬ suggest_full := by
   have ht : termsWithinBase [[97]] [97] 1 0 = .ok [[97]] := by
     rw [terms_within_multi]; simp [within, sharePrefix, osa, ed, neq]
   have hs : suggest [[97]] (fun _ => 1) 5 1 = .ok [[97]] := by
-    simp [suggest, suggestions, suggestLoop, heapInsert, Except.map, sortBy, insertBy]
+    simp [suggest, suggestItems, suggestions, suggestLoop, heapInsert, Except.map, sortBy, insertBy]
   have := (h [[97]] (fun _ => 1) [97] 5 1 0 [[97]] [[97]] (by omega) ht hs).1 [97] (by simp)
   exact this.2 rfl
 
@@ -403,5 +449,86 @@ theorem suggest_ignores_distance :
   constructor
   · decide +kernel
   · simp [osa, ed, neq]
+
+/-! ### `spelling.py`: `ListCorrector`, `SimpleQueryCorrector` (`Searcher.correct_query`) -/
+
+/-- **`ListCorrector.suggest`** on a sorted word list: the call succeeds, returns at most `limit`
+    words, and every one of them is a non-empty word of the list that shares the prefix and is
+    within plain Levenshtein - hence within the documented - distance.  (`_partial` with respect to
+    the property: like the index path it measures `lev`, so transposition neighbours are missed -
+    `list_corrector_misses_transposition` - and the word itself is not excluded.) -/
+theorem list_corrector_partial (wl : List (List Nat)) (w : List Nat) (limit maxdist p : Nat)
+    (hl : 0 < limit) (hw : Valid w) (hv : ∀ t, t ∈ wl → Valid t) (hs : SortedLex wl) :
+    ∃ r, listSuggest wl w limit maxdist p = .ok r ∧ r.length ≤ limit ∧
+      ∀ t, t ∈ r → t ≠ [] ∧ t ∈ within lev wl w maxdist p ∧ t ∈ within osa wl w maxdist p := by
+  obtain ⟨r, hr, hlen, hmem⟩ := listSuggest_spec wl w limit maxdist p hl hw hv hs
+  refine ⟨r, hr, hlen, ?_⟩
+  intro t ht
+  obtain ⟨h1, h2, h3, h4⟩ := hmem t ht
+  have hlev : t ∈ within lev wl w maxdist p := by
+    unfold within
+    rw [List.mem_filter]
+    refine ⟨h1, ?_⟩
+    simp only [Bool.and_eq_true, decide_eq_true_eq, sharePrefix, List.isPrefixOf_iff_prefix]
+    exact ⟨h3, by rw [(dist_symm t w).1]; exact h4⟩
+  exact ⟨h2, hlev, single_subset_documented wl w maxdist p t hlev⟩
+
+/-- `ListCorrector(["ba"]).suggest("ab", maxdist=1)` is empty although `ba` is one (documented)
+    edit away. -/
+theorem list_corrector_misses_transposition :
+    listSuggest [[98, 97]] [97, 98] 5 1 0 = .ok [] ∧ osa [98, 97] [97, 98] = 1 := by
+  obtain ⟨r, hr, _, hmem⟩ := listSuggest_spec [[98, 97]] [97, 98] 5 1 0 (by omega)
+    (by simp [Valid, maxCodePoint]) (by simp [Valid, maxCodePoint]) (by simp [SortedLex])
+  refine ⟨?_, by simp [osa, ed, neq]⟩
+  cases r with
+  | nil => exact hr
+  | cons t r =>
+    obtain ⟨h1, _, _, h4⟩ := hmem t (by simp)
+    have : t = [98, 97] := by simpa using h1
+    subst this
+    simp [lev, ed, neq] at h4
+
+/-- **`Searcher.correct_query` / `SimpleQueryCorrector`** for one query word, multi-segment
+    reader: the word is either left alone or replaced by a term of the field that shares the
+    first `p` characters and is within the documented distance `d` (never by anything else -
+    whatever the frequencies).  `_partial`: that the replacement is the *closest* such term is
+    false (`suggest_ignores_distance`), and it can be the word itself (`suggest_returns_word`). -/
+theorem correct_query_partial (lex : List (List Nat)) (freq : List Nat → Nat) (w : List Nat) (d p : Nat) :
+    ∃ r, correctToken (termsWithinBase lex w d p >>= fun terms => suggest terms freq 5 d) w = .ok r ∧
+      (r = w ∨ r ∈ within osa lex w d p) := by
+  obtain ⟨sugs, hs, hmem, _⟩ := suggest_partial lex freq w 5 d p (by omega)
+  rw [hs]
+  cases sugs with
+  | nil => exact ⟨w, rfl, Or.inl rfl⟩
+  | cons s rest => exact ⟨s, rfl, Or.inr (hmem s (by simp))⟩
+
+/-- The same through a single-segment reader and through a `ListCorrector`. -/
+theorem correct_query_single_partial (lex : List (List Nat)) (freq : List Nat → Nat) (w : List Nat)
+    (d p : Nat) (hw : Valid w) (hv : ∀ t, t ∈ lex → Valid t) (hs : SortedLex lex) :
+    (∃ r, correctToken (termsWithinSeg lex w d p >>= fun terms => suggest terms freq 5 d) w = .ok r ∧
+      (r = w ∨ r ∈ within osa lex w d p)) ∧
+    (∃ r, correctToken (listSuggest lex w 5 d p) w = .ok r ∧ (r = w ∨ r ∈ within osa lex w d p)) := by
+  constructor
+  · obtain ⟨sugs, h1, hmem, _⟩ := suggest_single_partial lex freq w 5 d p (by omega) hw hv hs
+    rw [h1]
+    cases sugs with
+    | nil => exact ⟨w, rfl, Or.inl rfl⟩
+    | cons s rest => exact ⟨s, rfl, Or.inr (hmem s (by simp))⟩
+  · obtain ⟨sugs, h1, _, hmem⟩ := list_corrector_partial lex w 5 d p (by omega) hw hv hs
+    rw [h1]
+    cases sugs with
+    | nil => exact ⟨w, rfl, Or.inl rfl⟩
+    | cons s rest => exact ⟨s, rfl, Or.inr (hmem s (by simp)).2.2⟩
+
+/-- The hypotheses are satisfiable and the correction is a real one: `ac` is corrected to `ab`
+    (distance 1) with the required prefix `a`, not to the more frequent `bc`. -/
+example : correctToken (termsWithinBase [[97, 98], [98, 99]] [97, 99] 1 1 >>= fun terms =>
+    suggest terms (fun t => if t = [98, 99] then 9 else 1) 5 1) [97, 99] = .ok [97, 98] := by
+  rw [terms_within_multi]
+  have : within osa [[97, 98], [98, 99]] [97, 99] 1 1 = [[97, 98]] := by
+    simp [within, sharePrefix, osa, ed, neq]
+  rw [this]
+  simp [bind, Except.bind, correctToken, suggest, suggestItems, suggestions, suggestLoop, heapInsert,
+    Except.map, sortBy, insertBy]
 
 end WM.C19
